@@ -1,5 +1,5 @@
 """C16: shebang / encodings / line endings."""
-import re, ast, itertools, collections
+import os, re, ast, itertools, collections
 from harness import common, astcmp
 
 TRUSTED = [
@@ -122,6 +122,42 @@ def oracle(res, tier, r):
     return n, hist
 
 
+def oracle_cli(res):
+    """the command line tool is one more way the bytes reach minify and leave it: what it writes (the minified module, or the untouched
+    original when that would be larger) must denote, read as a file, the program the source bytes denote"""
+    import subprocess
+    srcs = [b'#coding:latin-1\nx="' + b'\xe9' * 24 + b'"\n', b'# -*- coding: latin-1 -*-\nname  =  "caf\xe9 cr\xe8me"\nprint(name)\n', b'#!/usr/bin/python\n# vim: set fileencoding=iso-8859-15 :\ntitle  =  "\xa4 \xe9t\xe9"\n',
+            b'#coding:cp1252\r\ns="\x80\x99"\r\n', b'\xef\xbb\xbfs = "\xc3\xa9"\n', 's="\u00e9\u4e2d"\n'.encode('utf-8'), b'#coding:koi8-r\nz="\xc1\xc2\xd7"*3\n']
+    n = 0
+    for src in srcs:
+        try:
+            ref = astcmp.dump(ast.parse(src))
+        except (SyntaxError, ValueError):
+            continue
+        with common.scratch('c16cli-') as d:
+            path = os.path.join(d, 'legacy.py')
+            open(path, 'wb').write(src)
+            env = dict(os.environ, PYTHONPATH=common.SRC)
+            env.pop('PYMINIFY_FORCE_BEST_EFFORT', None)
+            for mode in ('stdout', 'output', 'inplace'):
+                open(path, 'wb').write(src)
+                argv = [common.PY, '-m', 'python_minifier', 'legacy.py'] + (['--output', 'out.py'] if mode == 'output' else ['--in-place'] if mode == 'inplace' else [])
+                p = subprocess.run(argv, cwd=d, env=env, stdout=subprocess.PIPE, stderr=subprocess.PIPE, timeout=120)
+                n += 1
+                got = p.stdout if mode == 'stdout' else open(os.path.join(d, 'out.py' if mode == 'output' else 'legacy.py'), 'rb').read() if p.returncode == 0 else b''
+                if p.returncode != 0:
+                    res.add_violation('c16-cli-fails', 'pyminify exits %d on a valid legacy-encoded module' % p.returncode, {'source_bytes': repr(src), 'mode': mode, 'stderr': p.stderr.decode('utf-8', 'replace')[-300:]})
+                    continue
+                try:
+                    out = astcmp.dump(ast.parse(got))
+                except (SyntaxError, ValueError) as e:
+                    res.add_violation('c16-cli-output-unparseable', 'what pyminify wrote does not parse as a file: %r' % e, {'source_bytes': repr(src), 'mode': mode, 'written': repr(got)})
+                    continue
+                if out != ref:
+                    res.add_violation('c16-cli-program-differs', 'the bytes pyminify wrote denote a different program (string constants) than the source bytes', {'source_bytes': repr(src), 'mode': mode, 'written': repr(got)})
+    return n
+
+
 def correspondence(res, tier, r):
     """Model find_shebang_text / find_shebang_bytes (regexes regenerated from the source) vs the real _find_shebang"""
     import python_minifier
@@ -169,6 +205,7 @@ def run(pid, tier):
     with common.coq_lock():
         ncases, nstr = correspondence(res, tier, r)
     n, hist = oracle(res, tier if not res.broken else 'thorough', r)
+    n += oracle_cli(res)
     res.samples = [{'program': PROGRAMS[1], 'shebang': SHEBANGS[1], 'newline': '\\r\\n', 'encoding': 'latin-1'}, {'string': '#!a\\rb\\nc'}]
     res.coverage.update({'model_cases_compared': ncases, 'strings': nstr, 'oracle_checks': n, 'evaluations': n + ncases, 'distinct_nontrivial': len(hist) + nstr,
                          'rule': 'oracle case = (program, shebang spelling, newline convention, encoding/cookie, text|bytes, preserve flag); model case = string run through the regenerated regex model and the real _find_shebang',
